@@ -25,6 +25,10 @@ pub enum ReadFault {
 pub struct ImgStore {
     files: Files,
     read_faults: Arc<Mutex<BTreeMap<String, ReadFault>>>,
+    /// per file: length covered by the last fsync (absent = never synced)
+    synced: Arc<Mutex<BTreeMap<String, usize>>>,
+    /// names for which `create` replaced an existing file (like File::create does)
+    replaced: Arc<Mutex<Vec<String>>>,
 }
 
 impl ImgStore {
@@ -48,7 +52,23 @@ impl ImgStore {
         ImgStore {
             files: Arc::new(Mutex::new(self.files.lock().unwrap().clone())),
             read_faults: Default::default(),
+            synced: Arc::new(Mutex::new(self.synced.lock().unwrap().clone())),
+            replaced: Default::default(),
         }
+    }
+    /// A crash: every byte not covered by an fsync of its file is gone (files stay, possibly empty).
+    pub fn simulate_crash(&self) {
+        let synced = self.synced.lock().unwrap();
+        for (name, data) in self.files.lock().unwrap().iter_mut() {
+            let keep = synced.get(name).copied().unwrap_or(0).min(data.len());
+            data.truncate(keep);
+        }
+    }
+    pub fn synced_len(&self, name: &str) -> usize {
+        self.synced.lock().unwrap().get(name).copied().unwrap_or(0)
+    }
+    pub fn replaced(&self) -> Vec<String> {
+        self.replaced.lock().unwrap().clone()
     }
     pub fn set_read_fault(&self, name: &str, f: Option<ReadFault>) {
         let mut g = self.read_faults.lock().unwrap();
@@ -66,6 +86,7 @@ impl ImgStore {
 pub struct ImgWriter {
     name: String,
     files: Files,
+    synced: Arc<Mutex<BTreeMap<String, usize>>>,
     size: u64,
 }
 
@@ -78,6 +99,8 @@ impl WalFileWriter for ImgWriter {
         Ok(self.size)
     }
     fn sync(&mut self) -> Result<(), WalError> {
+        let len = self.files.lock().unwrap().get(&self.name).map(|d| d.len()).unwrap_or(0);
+        self.synced.lock().unwrap().insert(self.name.clone(), len);
         Ok(())
     }
     fn size(&self) -> u64 {
@@ -108,10 +131,14 @@ impl WalStore for ImgStore {
     type Reader = ImgReader;
 
     fn create(&self, name: &str) -> Result<ImgWriter, WalError> {
-        self.files.lock().unwrap().insert(name.to_string(), Vec::new());
+        if self.files.lock().unwrap().insert(name.to_string(), Vec::new()).is_some() {
+            self.replaced.lock().unwrap().push(name.to_string());
+        }
+        self.synced.lock().unwrap().remove(name);
         Ok(ImgWriter {
             name: name.to_string(),
             files: Arc::clone(&self.files),
+            synced: Arc::clone(&self.synced),
             size: 0,
         })
     }
@@ -137,6 +164,7 @@ impl WalStore for ImgStore {
     }
     fn delete(&self, name: &str) -> Result<(), WalError> {
         self.remove(name);
+        self.synced.lock().unwrap().remove(name);
         Ok(())
     }
     fn exists(&self, name: &str) -> Result<bool, WalError> {
